@@ -106,6 +106,13 @@ def run(ctx):
         _, P0 = evaluate(ctx, "C07_openprobe", probes)
         for o in P0:
             ctx.violation("C07:open-twice:%s" % o["key"], "File.Open called %d times on one File (Tlopen on a fid and on the xattr fid walked from it, %s)" % (o["opens"], o["path"]), o)
+    stale = [o for o in obs if o["kind"] == "staleprobe"]
+    for o in stale:
+        if o.get("valid") and o.get("entered"):
+            ctx.violation("C07:overlap:stale-node", "GetAttr on an entry entered the backend while UnlinkAt of that entry (documented exclusive on the entry) was in progress: "
+                          "the unlink resolved the name to a node before a rename moved the entry there, and locked the stale node", o)
+    if stale and not any(o.get("valid") for o in stale):
+        ctx.note("C07 stale-node probe could not be set up in %d attempts" % len(stale))
     hangs = [o for o in obs if o["kind"] == "hang"]
     invalid = [o for o in obs if o["kind"] == "invalid" and "does not fit" not in o.get("why", "") and "cannot be both" not in o.get("why", "")]
     for o in hangs:
